@@ -14,6 +14,10 @@
 //	  framing   c | k<s1>.<s2>... (chunk sizes 1..15, cycled) | x (close-delimited) | n (no body: 204/304/HEAD)
 //	  sc        1: the origin's response says Connection: close
 //	  H         length of the response head in bytes (derived; checked on replay)
+//	  [:d<ms>]  the dial error is reported / the origin answers only after ms milliseconds
+//
+//	modes: seq | pipe through the plain proxy; mseq | mpipe through the MITM-enabled one; sseq | spipe through a plain
+//	proxy with SetTimeout(1.5 s)
 //
 //	MAL <hex client bytes> <0|1 close after writing>   malformed client stream, followed by a liveness probe
 //
@@ -57,7 +61,7 @@ func (stamp) ModifyResponse(res *http.Response) error {
 	return nil
 }
 
-func proxyChild(withMITM bool) {
+func proxyChild(withMITM, short bool) {
 	mlog.SetLevel(mlog.Silent)
 	l, err := net.Listen("tcp", "127.0.0.1:0")
 	if err != nil {
@@ -70,6 +74,21 @@ func proxyChild(withMITM bool) {
 	// net.Error with Timeout() == true, a DNSError stands for an unknown host
 	d := &net.Dialer{Timeout: 30 * time.Second, KeepAlive: 30 * time.Second}
 	p.SetDial(func(network, addr string) (net.Conn, error) {
+		// delay<ms>.<ref|tmo|dns>.invalid: the same failures, reported after a delay
+		if strings.HasPrefix(addr, "delay") {
+			if f := strings.SplitN(addr, ".", 3); len(f) == 3 {
+				ms, _ := strconv.Atoi(f[0][5:])
+				time.Sleep(time.Duration(ms) * time.Millisecond)
+				switch {
+				case strings.HasPrefix(f[1], "ref"):
+					return nil, &net.OpError{Op: "dial", Net: network, Err: os.NewSyscallError("connect", syscall.ECONNREFUSED)}
+				case strings.HasPrefix(f[1], "tmo"):
+					addr = "timeout.invalid:80"
+				default:
+					addr = "nohost.invalid:80"
+				}
+			}
+		}
 		switch {
 		case strings.HasPrefix(addr, "timeout.invalid:"):
 			return (&net.Dialer{Deadline: time.Unix(1, 0)}).Dial("tcp", "127.0.0.1:9")
@@ -94,6 +113,9 @@ func proxyChild(withMITM bool) {
 		p.SetMITM(mc)
 		p.SetTimeout(mitmTimeout)
 	}
+	if short {
+		p.SetTimeout(shortTimeout)
+	}
 	fmt.Println("ADDR", l.Addr().String())
 	go func() { // exit when the parent goes away
 		io.Copy(io.Discard, os.Stdin)
@@ -117,6 +139,13 @@ type child struct {
 // two proxies under test: plain, and MITM-enabled
 var plainChild = &child{kind: "proxy-child"}
 var mitmChild = &child{kind: "proxy-child-mitm"}
+
+// a plain proxy with a short per-request timeout, for connections that live
+// longer than it although no single exchange comes near it
+var shortChild = &child{kind: "proxy-child-short"}
+
+const shortTimeout = 1500 * time.Millisecond
+
 var ch = plainChild
 
 const mitmTimeout = 3 * time.Second
@@ -219,6 +248,7 @@ type exch struct {
 	BodyLen int
 	SC      bool
 	H       int
+	Delay   int // ms before the failure (dial error) or the origin's answer
 }
 
 var garbage = [][]byte{
@@ -298,7 +328,11 @@ func (e *exch) token() string {
 		}
 		fr += strings.Join(ss, ".")
 	}
-	return fmt.Sprintf("Y:%d:%c:%d:%d:%s:%d:%s:%d:%d:%d", e.ID, e.Meth, b2i(e.RC), b2i(e.V10), oc, e.Status, fr, e.BodyLen, b2i(e.SC), len(e.head()))
+	d := ""
+	if e.Delay > 0 {
+		d = fmt.Sprintf(":d%d", e.Delay)
+	}
+	return fmt.Sprintf("Y:%d:%c:%d:%d:%s:%d:%s:%d:%d:%d", e.ID, e.Meth, b2i(e.RC), b2i(e.V10), oc, e.Status, fr, e.BodyLen, b2i(e.SC), len(e.head())) + d
 }
 
 func b2i(b bool) int {
@@ -310,10 +344,17 @@ func b2i(b bool) int {
 
 func parseExch(t string) (*exch, error) {
 	f := strings.Split(t, ":")
-	if len(f) != 11 || f[0] != "Y" || len(f[2]) != 1 {
+	if (len(f) != 11 && len(f) != 12) || f[0] != "Y" || len(f[2]) != 1 {
 		return nil, fmt.Errorf("bad exchange token")
 	}
 	e := &exch{Meth: f[2][0], RC: f[3] == "1", V10: f[4] == "1", SC: f[9] == "1"}
+	if len(f) == 12 {
+		d, err := strconv.Atoi(strings.TrimPrefix(f[11], "d"))
+		if err != nil || d < 0 || d > 5000 {
+			return nil, fmt.Errorf("bad delay")
+		}
+		e.Delay = d
+	}
 	var err error
 	if e.ID, err = strconv.Atoi(f[1]); err != nil {
 		return nil, err
@@ -385,6 +426,9 @@ func (e *exch) request(origin string) []byte {
 		target = "timeout.invalid:80"
 	case "dns":
 		target = "nohost.invalid:80"
+	}
+	if e.Delay > 0 && (e.Outcome == "ref" || e.Outcome == "tmo" || e.Outcome == "dns") {
+		target = fmt.Sprintf("delay%d.%s.invalid:80", e.Delay, e.Outcome)
 	}
 	if e.Meth == 'C' {
 		return []byte(fmt.Sprintf("CONNECT %s HTTP/1.1\r\nHost: %s\r\nUser-Agent: verif\r\n\r\n", target, target))
@@ -466,6 +510,8 @@ func runUF(in []string) (out []string) {
 	ch := plainChild
 	if strings.HasPrefix(mode, "m") { // mseq / mpipe: through the MITM-enabled proxy
 		ch, mode = mitmChild, mode[1:]
+	} else if mode == "sseq" || mode == "spipe" { // through the proxy with the short timeout
+		ch, mode = shortChild, mode[1:]
 	}
 	var exs []*exch
 	byID := map[int]*exch{}
@@ -493,6 +539,9 @@ func runUF(in []string) (out []string) {
 		e := byID[id]
 		if e == nil || i < 0 {
 			return p1x.Action{Bytes: []byte("HTTP/1.1 500 Unexpected\r\nContent-Length: 0\r\nConnection: close\r\n\r\n"), Close: true}
+		}
+		if e.Delay > 0 {
+			time.Sleep(time.Duration(e.Delay) * time.Millisecond)
 		}
 		full := append(e.head(), e.bodyWire()...)
 		switch e.Outcome {
@@ -858,6 +907,20 @@ func runCase(in []string) (out []string) {
 
 func runRobust(in []string) []string {
 	out := runCase(in)
+	if len(in) > 1 && in[0] == "UF" && (in[1] == "sseq" || in[1] == "spipe") {
+		// scripts for the short-timeout proxy carry no close signal: anything
+		// but "every exchange answered, connection open" is the defect or a
+		// stalled machine; once more before it is reported
+		n := 0
+		for _, t := range out {
+			if strings.HasPrefix(t, "R:") {
+				n++
+			}
+		}
+		if n != len(in)-2 || out[len(out)-1] != "END:open" {
+			return runCase(in)
+		}
+	}
 	for _, t := range out {
 		if strings.Contains(t, "timeout") || strings.HasPrefix(t, "ENV:") {
 			if atomic.AddInt32(&stuck, 1) > 16 {
@@ -873,7 +936,7 @@ func main() {
 	mlog.SetLevel(mlog.Silent)
 	for i, a := range os.Args {
 		if a == "-extra" && i+1 < len(os.Args) && strings.HasPrefix(os.Args[i+1], "proxy-child") {
-			proxyChild(os.Args[i+1] == "proxy-child-mitm")
+			proxyChild(os.Args[i+1] == "proxy-child-mitm", os.Args[i+1] == "proxy-child-short")
 			return
 		}
 	}
@@ -888,6 +951,7 @@ func main() {
 	}
 	defer plainChild.stop()
 	defer mitmChild.stop()
+	defer shortChild.stop()
 	var cases []hx.Case
 	pre, replayOnly := cfg.Inputs()
 	cases = append(cases, pre...)
